@@ -484,6 +484,66 @@ def check_cleaned_token_lemma(bound):
 
 # ---------------------------------------------------------------------------------------------------------------------
 
+def builtin_lemmas(seed, n):
+    """sampled (bounded) checks of the assumed contracts: float.__repr__ form, str(int), and the Python-re -> z3 regex translation"""
+    import random
+    import re
+    import struct
+    import musicxml.xsd.xsdsimpletype as ST
+    rnd = random.Random(seed)
+    out = []
+    bad = None
+    cnt = 0
+    for _ in range(n):
+        x = struct.unpack('<d', struct.pack('<Q', rnd.getrandbits(64)))[0] if rnd.random() < 0.5 else rnd.choice([1, -1]) * 10 ** rnd.uniform(-20, 20)
+        if x != x or x in (float('inf'), float('-inf')):
+            continue
+        cnt += 1
+        r = repr(x)
+        is_dec = re.fullmatch(r'-?[0-9]+\.[0-9]+', r) is not None
+        want = (x == 0) or (1e-4 <= abs(x) < 1e16)
+        if is_dec != want or float(r) != x:
+            bad = bad or f'repr({x!r}) = {r}'
+    for b in (0.0, -0.0, 1e-4, 9.999999999999999e-05, 1e16, 9999999999999998.0, 123456789012345680.0):
+        r = repr(b); cnt += 1
+        if (re.fullmatch(r'-?[0-9]+\.[0-9]+', r) is not None) != ((b == 0) or (1e-4 <= abs(b) < 1e16)):
+            bad = bad or f'repr({b!r}) = {r}'
+    out.append(('C05/lemma/float-repr-form', bad is None, cnt, bad))
+    bad = None
+    for _ in range(n):
+        i = rnd.randint(-10 ** rnd.randint(0, 40), 10 ** rnd.randint(0, 40))
+        if re.fullmatch(r'-?(0|[1-9][0-9]*)', str(i)) is None or int(str(i)) != i:
+            bad = bad or f'str({i})'
+    out.append(('C05/lemma/int-str-form', bad is None, n, bad))
+    pats = {}
+    for name in ST.__all__:
+        c = getattr(ST, name)
+        try:
+            p = c._PATTERN or c.get_xsd_tree().get_pattern(c.__mro__[1].get_xsd_tree())
+        except Exception:
+            p = None
+        if p:
+            pats[p] = name
+    alpha = '#0123456789ABCDEFabcxyzZ:-,. \n+iIxX_\u00b7\u0300\u00e9\t'
+    for p, name in sorted(pats.items(), key=lambda kv: kv[1]):
+        try:
+            zr = rx.py_regex(p)
+        except Exception as ex:
+            out.append((f'C05/lemma/py-regex/{name}', False, 0, f'pattern not translatable: {ex}'))
+            continue
+        cre = re.compile(p)
+        bad = None
+        k = 60 if n <= 2000 else 300
+        for _ in range(k):
+            w = ''.join(rnd.choice(alpha) for _ in range(rnd.randint(0, 9)))
+            sol = z3.Solver()
+            sol.add(z3.InRe(z3.StringVal(w), zr))
+            if (sol.check() == z3.sat) != (cre.fullmatch(w) is not None):
+                bad = bad or f'{w!r}'
+        out.append((f'C05/lemma/py-regex/{name}', bad is None, k, None if bad is None else f'z3 translation and re.fullmatch disagree on {bad}'))
+    return out
+
+
 def replay_source(o):
     warm = ''
     if o['gstate'] != 'pristine':
@@ -567,6 +627,7 @@ def run(tier='quick', seed=0):
         're.compile(p).fullmatch(s) is modelled by translating p (parsed with CPython\'s own re._parser) to a z3 regex',
         'get_cleaned_token(v) = XSD collapse(v) for strings without non-XSD Unicode whitespace: BOUNDED lemma (exhaustive over {a,b,SP,TAB,LF,CR}^<=N), not proved; strings with exotic whitespace are outside the proved domain',
         'collapse axioms used in VCs (result is collapsed; identity on collapsed strings; idempotent; literal instances) are true lemmas of XSD collapse, not machine-checked',
+        'the float-repr, str(int) and regex-translation contracts are additionally SAMPLED at run time (C05/lemma/*, bounded, seed = VERIF_SEED)',
     ]
     from .. import instr
     if not xsdspec.check_vendored():
@@ -604,6 +665,9 @@ def run(tier='quick', seed=0):
     all_obs.append(dict(oid='C05/lemma/get_cleaned_token==collapse', status='discharged' if cex is None else 'violated', level='bounded',
                         detail=f'exhaustive over {nb} strings' if cex is None else f'differs on {cex!r}', witness=repr(cex), kind='lemma', paths=nb,
                         backend='native-exhaustive'))
+    # bounded lemmas for the assumed contracts of the built-ins
+    for oid, ok, n, det in builtin_lemmas(seed, 2000 if tier == 'quick' else 20000):
+        all_obs.append(dict(oid=oid, status='discharged' if ok else 'violated', level='bounded', detail=det, witness=None, kind='lemma', paths=n, backend='native-sample'))
     # native cross-check of every explored path
     mismatches = _native_crosscheck(cases)
     if mismatches is None:
